@@ -305,6 +305,9 @@ func (ci *checkImpl[C]) Batch(tier string, seed uint64) int {
 	}
 
 	n := s.Runs(tier)
+	if v := os.Getenv("VERIF_RUNS"); v != "" {
+		fmt.Sscanf(v, "%d", &n) // used by the determinism self-test
+	}
 	budget := s.Budget(tier)
 	workers := s.Workers
 	if workers <= 0 {
